@@ -378,4 +378,4 @@ Proof. intros (t & H1 & H2). exists t, v. auto. Qed.
 
 (* the empty table (every external parser fails) satisfies the assumed law vacuously *)
 Lemma empty_table_stable : forall ll ids, ext_stable str table_print (table_parse []) ll ids.
-Proof. intros ll ids i x e _ _ H. discriminate. Qed.
+Proof. intros ll ids i x e _ _ _ H. discriminate. Qed.
